@@ -136,11 +136,16 @@ type LocalSuperior struct {
 	taskCache     *ccache.CCache // indexed by job_id
 	taskCacheLock sync.Mutex
 	latestTask    protocol.Message // latest request_qualities job
+	// taskDone holds, per task, a channel that RemoveTask closes BEFORE it asks for taskCacheLock: a report
+	// blocked on the task's full result channel holds that lock, and this is what lets it go
+	taskDone     map[uuid.UUID]chan struct{}
+	taskDoneLock sync.Mutex
 }
 
 func NewLocalSuperior() *LocalSuperior {
 	ls := &LocalSuperior{
 		taskCache: ccache.NewCCache(100),
+		taskDone:  make(map[uuid.UUID]chan struct{}),
 	}
 	base := newBaseSuperior(map[protocol.MsgType]superiorMsgHandler{
 		protocol.MsgTypeReportQualities: ls.onReportQualities,
@@ -160,6 +165,9 @@ func (ls *LocalSuperior) Subscribe(ctx context.Context, c Collector) {
 
 func (ls *LocalSuperior) AddTask(ctx context.Context, collectorID uuid.UUID, req protocol.Message) chan *CollectorMsg {
 	ch := make(chan *CollectorMsg, 10)
+	ls.taskDoneLock.Lock()
+	ls.taskDone[req.ID()] = make(chan struct{})
+	ls.taskDoneLock.Unlock()
 	ls.taskCacheLock.Lock()
 	ls.taskCache.Add(req.ID(), ch)
 	ls.taskCacheLock.Unlock()
@@ -175,8 +183,24 @@ func (ls *LocalSuperior) AddTask(ctx context.Context, collectorID uuid.UUID, req
 }
 
 func (ls *LocalSuperior) RemoveTask(id uuid.UUID) {
+	// release a report that is parked on this task's full result channel (it holds taskCacheLock)
+	ls.taskDoneLock.Lock()
+	if done, ok := ls.taskDone[id]; ok {
+		select {
+		case <-done:
+		default:
+			close(done)
+		}
+	}
+	ls.taskDoneLock.Unlock()
+
 	ls.taskCacheLock.Lock()
 	defer ls.taskCacheLock.Unlock()
+	defer func() {
+		ls.taskDoneLock.Lock()
+		delete(ls.taskDone, id)
+		ls.taskDoneLock.Unlock()
+	}()
 	v, ok := ls.taskCache.Get(id)
 	if !ok {
 		return
@@ -198,9 +222,14 @@ func (ls *LocalSuperior) submitCollectorMsg(ctx context.Context, resp *Collector
 		return nil
 	}
 	ch := v.(chan *CollectorMsg)
+	ls.taskDoneLock.Lock()
+	done := ls.taskDone[resp.Msg.ID()] // nil (never ready) for a task without an entry
+	ls.taskDoneLock.Unlock()
 	select {
 	case <-ctx.Done():
 		err = ctx.Err()
+	case <-done:
+		// the task is being removed: its waiter no longer reads
 	case ch <- resp:
 	}
 	return err
